@@ -80,19 +80,12 @@ def allEmpty : List Node → Bool
 def rebuild (pk : Bytes) (v : Option Bytes) (hashed : Bool) (kids kids' : List Node) : Node :=
   if allEmpty kids' && !(allEmpty kids) then .leaf pk v hashed else .branch pk v hashed kids'
 
-mutual
-/-- `loadProof(digestToEncoding, n)`; the fuel bounds the depth of the chain of hash references -/
-def loadF (strict : Bool) (m : Pairs) : Nat → Node → Except VOut Node
-  | 0, _ => .error .fuel
-  | f + 1, .branch pk v hashed kids =>
-    match loadKids strict m f kids with
-    | .ok kids' => .ok (rebuild pk v hashed kids kids')
-    | .error e => .error e
-  | _ + 1, n => .ok n
-/-- the loop over `branch.Children` -/
-def loadKids (strict : Bool) (m : Pairs) : Nat → List Node → Except VOut (List Node)
-  | _, [] => .ok []
-  | f, c :: cs =>
+/-- the loop over `branch.Children` of `loadProof`; `rec` = the recursive `loadProof` call on a
+    child found by its hash -/
+def loadKids (strict : Bool) (m : Pairs) (rec : Node → Except VOut Node) :
+    List Node → Except VOut (List Node)
+  | [] => .ok []
+  | c :: cs =>
     let r : Except VOut Node :=
       match c with
       | .stub mv =>
@@ -101,7 +94,7 @@ def loadKids (strict : Bool) (m : Pairs) : Nat → List Node → Except VOut (Li
         | some enc =>
           match decode strict enc with
           | .ok .empty => .error .childEmpty
-          | .ok n => loadF strict m f n
+          | .ok n => rec n
           | .err _ => .error .decodeErr
           | .panic => .error .panic
           | .fuel => .error .fuel
@@ -109,10 +102,18 @@ def loadKids (strict : Bool) (m : Pairs) : Nat → List Node → Except VOut (Li
     match r with
     | .error e => .error e
     | .ok c' =>
-      match loadKids strict m f cs with
+      match loadKids strict m rec cs with
       | .ok cs' => .ok (c' :: cs')
       | .error e => .error e
-end
+
+/-- `loadProof(digestToEncoding, n)`; the fuel bounds the depth of the chain of hash references -/
+def loadF (strict : Bool) (m : Pairs) : Nat → Node → Except VOut Node
+  | 0, _ => .error .fuel
+  | f + 1, .branch pk v hashed kids =>
+    match loadKids strict m (loadF strict m f) kids with
+    | .ok kids' => .ok (rebuild pk v hashed kids kids')
+    | .error e => .error e
+  | _ + 1, n => .ok n
 
 /-- a stored value as `Get` returns it: a hashed value is resolved through the proof database
     (`db.Get`: `nil` when absent) -/
@@ -157,3 +158,76 @@ def verifyP (strict : Bool) (pairs : Pairs) (rootHash key value : Bytes) : VOut 
 /-- `proof.Verify(encodedProofNodes, rootHash, key, value)` -/
 def verify (H : Bytes → Bytes) (strict : Bool) (nodes : List Bytes) (rootHash key value : Bytes) : VOut :=
   verifyP strict (pairsOf H nodes) rootHash key value
+
+/-! ### Generate -/
+
+/-- the storage value a found node contributes: added when the node holds it by hash
+    (`MustBeHashed`, set by `Load` for exactly the values the encoding stores hashed) -/
+def valueNode (ver : Ver) : Option Bytes → List Bytes
+  | some x => if mustBeHashed ver x then [x] else []
+  | none => []
+
+/-- `walkRoot` (`isRoot`) / `walk`: `none` = `ErrKeyNotFound`.  The root encoding is always part of
+    the proof, another node only when its encoding has 32 bytes or more. -/
+def walk (ver : Ver) (H : Bytes → Bytes) : Bool → Trie → Nibs → Option (List Bytes)
+  | _, .nil, key => if key.length = 0 then some [] else none
+  | isRoot, .leaf pk v, key =>
+    let enc := encodeNode ver H (.leaf pk v)
+    let me := if isRoot || decide (enc.length ≥ 32) then [enc] else []
+    if key.length = 0 || pk == key then some (me ++ valueNode ver (some v)) else none
+  | isRoot, .branch pk v cs, key =>
+    let enc := encodeNode ver H (.branch pk v cs)
+    let me := if isRoot || decide (enc.length ≥ 32) then [enc] else []
+    if key.length = 0 || pk == key then some (me ++ valueNode ver v)
+    else if !(decide (key.length > pk.length)) then none
+    else
+      match key.drop (Trie.lcpLen pk key) with
+      | i :: rest =>
+        match walk ver H false (cs i) rest with
+        | some deeper => some (me ++ deeper)
+        | none => none
+      | [] => none   -- unreachable: lcpLen ≤ pk.length < key.length
+
+/-- the deduplication of `Generate`: a node is appended unless the Merkle value of its encoding was
+    seen before (a short root encoding is its own Merkle value) -/
+def dedupInto (H : Bytes → Bytes) : List Bytes × List Bytes → List Bytes → List Bytes × List Bytes
+  | st, [] => st
+  | (seen, out), e :: r =>
+    let mv := Gossamer.merkleValue H e
+    if seen.contains mv then dedupInto H (seen, out) r
+    else dedupInto H (mv :: seen, out ++ [e]) r
+
+/-- the loop of `Generate` over the keys -/
+def generateFrom (ver : Ver) (H : Bytes → Bytes) (t : Trie) :
+    List Bytes × List Bytes → List Bytes → Option (List Bytes)
+  | st, [] => some st.2
+  | st, k :: ks =>
+    match walk ver H true t (Trie.keyLEToNibbles k) with
+    | none => none
+    | some ns => generateFrom ver H t (dedupInto H st ns) ks
+
+/-- `proof.Generate(rootHash, fullKeys, database)` where the database holds the trie `t` under
+    `rootHash`: `none` = `ErrKeyNotFound` -/
+def generate (ver : Ver) (H : Bytes → Bytes) (t : Trie) (keys : List Bytes) : Option (List Bytes) :=
+  generateFrom ver H t ([], []) keys
+
+/-- what a proof for `key` has to contain whether or not the key is present: the root and the
+    nodes of 32 bytes or more on the longest path that spells a prefix of the key (and the value
+    of the node when it is held by hash) -/
+def pathNodes (ver : Ver) (H : Bytes → Bytes) : Bool → Trie → Nibs → List Bytes
+  | _, .nil, _ => []
+  | isRoot, .leaf pk v, key =>
+    let enc := encodeNode ver H (.leaf pk v)
+    let me := if isRoot || decide (enc.length ≥ 32) then [enc] else []
+    if pk == key then me ++ valueNode ver (some v) else me
+  | isRoot, .branch pk v cs, key =>
+    let enc := encodeNode ver H (.branch pk v cs)
+    let me := if isRoot || decide (enc.length ≥ 32) then [enc] else []
+    if pk == key then me ++ valueNode ver v
+    else if !(pk.isPrefixOf key) then me
+    else
+      match key.drop pk.length with
+      | i :: rest => me ++ pathNodes ver H false (cs i) rest
+      | [] => me
+
+end Gossamer.C05
